@@ -286,6 +286,19 @@ def iterNext (s : CState K V) (it : Iter) : Res (Iter × IterOut K V) :=
             | some k, none => if it.withValues then .ub else .ok ({ it with node := l'.id, idx := i + 1 }, .key k)
             | none, _ => .ub
 
+/-- the references `BPlusTreeIterator_next` takes for what it returns: `Py_INCREF(key)` (and `Py_INCREF(value)` for
+    `items()`); they belong to the returned object / tuple.  Nothing is released. -/
+def iterEvs : IterOut K V → Evs K V
+  | .item k v => { inc := [.key k, .val v] }
+  | .key k => { inc := [.key k] }
+  | _ => {}
+
+/-- the key / value objects inside the Python object a step returns (the caller's new references) -/
+def handedOut : IterOut K V → List (Obj K V)
+  | .item k v => [.key k, .val v]
+  | .key k => [.key k]
+  | _ => []
+
 /-- drain an iterator (what `list(t.items())` does): fuel = entries + leaves + 2 -/
 def drain (s : CState K V) : Nat → Iter → List (IterOut K V) → Res (List (IterOut K V))
   | 0, _, _ => .diverge
